@@ -156,3 +156,187 @@ func Run(out, mode string) {
 	}
 	tr.Summary(tr.M{"scenarios": t.Scen, "lines": t.Lines, "sigs": t.Sigs()})
 }
+
+// seqOps reads the whole stream sequentially with the given buffer size, then once more.
+func seqOps(total int64, buf int) []bgz.ROp {
+	var ops []bgz.ROp
+	for n := int64(0); n <= total+int64(buf); n += int64(buf) {
+		ops = append(ops, bgz.ROp{K: "read", N: buf})
+		if len(ops) > 400 {
+			break
+		}
+	}
+	return ops
+}
+
+// RunFaults: C09 reader half - workloads x every index k of the underlying Read / Seek
+// call at which an error (or partial data then an error) is injected.
+func RunFaults(out string) {
+	t := tr.Create(out)
+	defer t.Close()
+	watch.Threshold = 6 * time.Second
+	r := tr.Rand(909)
+	rds := []int{1, 2, 4}
+	nrand := 60
+	if tr.Tier() == "thorough" {
+		rds = []int{1, 2, 3, 4, 8}
+		nrand = 1500
+		watch.Threshold = 20 * time.Second
+	}
+	files := []*bgz.File{
+		bgz.BuildFile([]int{5, 3, 0, 4, 2, 6}, true, 1, true),
+		bgz.BuildFile([]int{B, 100, B - 1, 7}, true, 1, false),
+		bgz.BuildFile([]int{3000, 1, 2000, 8, 8, 8, 8, 8}, false, 6, false),
+	}
+	type wl struct {
+		name string
+		ops  func(f *bgz.File) []bgz.ROp
+	}
+	wls := []wl{
+		{"seq", func(f *bgz.File) []bgz.ROp { return seqOps(f.Total, 7) }},
+		{"seqbig", func(f *bgz.File) []bgz.ROp { return seqOps(f.Total, 50000) }},
+		{"seekfwd", func(f *bgz.File) []bgz.ROp {
+			var ops []bgz.ROp
+			for i := range f.Members {
+				ops = append(ops, bgz.ROp{K: "seek", M: i, Off: 0}, bgz.ROp{K: "read", N: 4}, bgz.ROp{K: "readbyte"})
+			}
+			return ops
+		}},
+		{"retry", func(f *bgz.File) []bgz.ROp {
+			// after an error: seek to the same place again and read on (retry), then elsewhere
+			var ops []bgz.ROp
+			for rep := 0; rep < 2; rep++ {
+				for i := len(f.Members) - 1; i >= 0; i-- {
+					ops = append(ops, bgz.ROp{K: "seek", M: i, Off: 1}, bgz.ROp{K: "read", N: 6}, bgz.ROp{K: "seek", M: i, Off: 0}, bgz.ROp{K: "read", N: 3})
+				}
+			}
+			return ops
+		}},
+	}
+	for _, f := range files {
+		for _, w := range wls {
+			base := w.ops(f)
+			for _, rd := range rds {
+				for _, withCache := range []bool{false, true} {
+					ops := base
+					if withCache {
+						ops = append([]bgz.ROp{{K: "setcache", Kind: []string{"LRU", "FIFO", "Random"}[r.Intn(3)], Cap: 1 + r.Intn(3)}}, base...)
+					}
+					// count the underlying calls of the fault-free run
+					probe := tr.Create("/dev/null")
+					bgz.RunReader(probe, bgz.RScenario{Class: "probe", File: f, CutLen: -1, RD: rd, Ops: ops})
+					probe.Close()
+					nr, ns := bgz.LastSrcReads, bgz.LastSrcSeeks
+					if nr > 40 {
+						nr = 40
+					}
+					for k := 1; k <= nr; k++ {
+						if tr.Tier() != "thorough" && k > 12 && k%3 != 0 {
+							continue
+						}
+						bgz.RunReader(t, bgz.RScenario{Class: "fault-" + w.name, File: f, Faultable: true, CutLen: -1, RD: rd, Ops: ops,
+							FailRead: k, Partial: k%2 == 0, Sticky: k%3 == 0})
+					}
+					for k := 1; k <= ns && k <= 12; k++ {
+						bgz.RunReader(t, bgz.RScenario{Class: "fault-" + w.name, File: f, Faultable: true, CutLen: -1, RD: rd, Ops: ops, FailSeek: k})
+					}
+				}
+			}
+		}
+	}
+	// random histories with a random fault
+	for i := 0; i < nrand; i++ {
+		f := files[r.Intn(len(files))]
+		ops := history(r, f, 5+r.Intn(25), true)
+		sc := bgz.RScenario{Class: "fault-random", File: f, Faultable: true, CutLen: -1, RD: rds[r.Intn(len(rds))], Ops: ops,
+			Partial: r.Intn(2) == 0, Sticky: r.Intn(3) == 0}
+		if r.Intn(4) == 0 {
+			sc.FailSeek = 1 + r.Intn(6)
+		} else {
+			sc.FailRead = 1 + r.Intn(30)
+		}
+		bgz.RunReader(t, sc)
+	}
+	tr.Summary(tr.M{"scenarios": t.Scen, "lines": t.Lines, "sigs": t.Sigs()})
+}
+
+// RunCuts: C10 (BGZF part) - every truncation length of small streams (a window around
+// every member boundary plus a stride for large ones) and single-byte substitutions.
+func RunCuts(out string) {
+	t := tr.Create(out)
+	defer t.Close()
+	watch.Threshold = 6 * time.Second
+	r := tr.Rand(1010)
+	files := []*bgz.File{
+		bgz.BuildFile([]int{5, 3, 0, 4}, true, 1, true),
+		bgz.BuildFile([]int{8, 8, 8}, false, 6, false),
+		bgz.BuildFile([]int{B, 10, 3000}, true, 1, false),
+	}
+	values := []int{1, 0x80}
+	if tr.Tier() == "thorough" {
+		values = []int{1, 0x80, -1, -2} // +1, xor 0x80, set 0x00, set 0xff
+		files = append(files, bgz.BuildFile([]int{1, 2, 3, 4, 5, 6, 7, 8}, true, 9, false), bgz.BuildFile([]int{B - 1, 1, B}, false, 0, false))
+		for i := 0; i < 20; i++ {
+			files = append(files, bgz.BuildFile(shapes(r, 1)[12], r.Intn(2) == 0, []int{-1, 0, 1, 9}[r.Intn(4)], r.Intn(2) == 0))
+		}
+		watch.Threshold = 20 * time.Second
+	}
+	for _, f := range files {
+		small := len(f.Bytes) < 2000
+		boundary := map[int]int64{} // byte offset of a member boundary -> logical length before it
+		var lg int64
+		for _, m := range f.Members {
+			boundary[int(m.Base)] = lg
+			lg += int64(m.Len)
+		}
+		near := func(c int) bool {
+			for b := range boundary {
+				if c >= b-40 && c <= b+40 {
+					return true
+				}
+			}
+			return false
+		}
+		for cut := 0; cut < len(f.Bytes); cut++ {
+			if !small && !near(cut) && cut%997 != 0 {
+				continue
+			}
+			cl, ok := boundary[cut]
+			if !ok {
+				cl = -1
+			}
+			for _, rd := range []int{1, 4} {
+				ops := seqOps(f.Total, []int{5, 4096}[r.Intn(2)])
+				want := "false"
+				if cut >= 28 && string(f.Bytes[cut-28:cut]) == string(bgz.MagicBlock) {
+					want = "" // the prefix ends with a marker this test placed inside the file: not a writer's stream
+				}
+				bgz.RunReader(t, bgz.RScenario{Class: "cut", File: f, Stream: f.Bytes[:cut], Faultable: true, CutLen: cl, RD: rd, Ops: ops, HasEOFWant: want})
+			}
+		}
+		for p := 0; p < len(f.Bytes); p++ {
+			if !small && !near(p) && p%499 != 0 {
+				continue
+			}
+			for _, v := range values {
+				s := append([]byte(nil), f.Bytes...)
+				switch v {
+				case -1:
+					s[p] = 0
+				case -2:
+					s[p] = 0xff
+				case 0x80:
+					s[p] ^= 0x80
+				default:
+					s[p]++
+				}
+				if s[p] == f.Bytes[p] {
+					continue
+				}
+				rd := []int{1, 4}[(p+v+4)%2]
+				bgz.RunReader(t, bgz.RScenario{Class: "subst", File: f, Stream: s, Faultable: true, CutLen: -1, RD: rd, Ops: seqOps(f.Total, 6)})
+			}
+		}
+	}
+	tr.Summary(tr.M{"scenarios": t.Scen, "lines": t.Lines, "sigs": t.Sigs()})
+}
